@@ -7,7 +7,7 @@ import math
 import numpy as np
 from hypothesis import strategies as st
 
-from ..core import SubCheck, Violation, cut, require
+from ..core import EDIT_LEVELS, SubCheck, Violation, cut, live_edit, require
 from ..rng_script import ScriptExhausted, scripted
 from ..strategies import bfloat, block_edge_sizes, near, ulp_step, unit_closed
 
@@ -114,9 +114,9 @@ def body_power(case):
     # the same Spectra object after index / bounds of its spectrum were edited in place behaves like a fresh object
     # of the edited configuration (energies AND both normalisation factors)
     p2, lo2, hi2 = case.get("index2", 1.0), min(lo, case.get("lo2", lo)), max(hi, case.get("hi2", hi))
-    spec.config.simulation.spectrum.index = p2
-    spec.config.simulation.spectrum.lower_bound = lo2
-    spec.config.simulation.spectrum.upper_bound = hi2
+    level = case.get("edit_level", "leaf")
+    live_edit(spec, ("simulation", "spectrum"), {"index": p2, "lower_bound": lo2, "upper_bound": hi2}, level)
+    labels.add("live_edit_" + level)
     m = min(n, 16)
     with scripted(u[:m], raw=True):
         with cut("Spectra (live object after editing its spectrum in place)"):
@@ -237,7 +237,7 @@ def _options_strategy():
 SUBCHECKS = [
     SubCheck(
         "power_law",
-        st.fixed_dictionaries({"index": index_st, "bounds": bounds_st, "n": n_st, "u": st.lists(unit_closed(), min_size=1, max_size=24), "index2": index_st, "lo2": st.floats(6.0, 9.0), "hi2": st.floats(9.0, 12.0)}),
+        st.fixed_dictionaries({"index": index_st, "bounds": bounds_st, "n": n_st, "u": st.lists(unit_closed(), min_size=1, max_size=24), "index2": index_st, "lo2": st.floats(6.0, 9.0), "hi2": st.floats(9.0, 12.0), "edit_level": st.sampled_from(EDIT_LEVELS)}),
         body_power,
         lambda labels: bool(labels & {"index_near_1", "u_at_end", "upper==12"}),
         {"quick": 1500, "thorough": 60000},
